@@ -28,6 +28,7 @@ simsched.install_lock_seam((os.path.join(core.REPO, "mappyfile") + os.sep,))
 import copy  # noqa: E402
 import hashlib  # noqa: E402
 import io  # noqa: E402
+import re  # noqa: E402
 import json  # noqa: E402
 
 from sim import simfs, workload  # noqa: E402
@@ -154,12 +155,34 @@ class C12(core.Check):
                 elif kind == "inc_missing":
                     text = f"MAP\n  NAME \"m\"\n  INCLUDE \"inc{i}/nothere.map\"\nEND\n"
                 else:
+                    # one chain of seven files shared by all documents of the case: entering it at l0 is too
+                    # deep (raises half-way down), entering it at l2..l4 is fine and reaches the same files
                     for j in range(7):
-                        files[f"{base}/l{j}.map"] = f"INCLUDE \"inc{i}/l{j + 1}.map\"\n" if j < 6 else layer
-                    text = f"MAP\n  NAME \"m\"\n  INCLUDE \"inc{i}/l0.map\"\nEND\n"
+                        files[f"/simfs/w/chain/l{j}.map"] = f"INCLUDE \"chain/l{j + 1}.map\"\n" if j < 6 else layer
+                    entry = r.choice([0, 0, 1, 2, 3, 4])
+                    text = f"MAP\n  NAME \"m{entry}\"\n  INCLUDE \"chain/l{entry}.map\"\nEND\n"
             if allow_broken and r.random() < 0.2:
                 text = workload.break_text(r, text)
             docs[did] = text
+        if allow_includes and r.random() < 0.3:
+            # a pair of documents entering one shared include chain at a failing and at a working depth
+            layer = "LAYER\n  NAME \"inc\"\n  TYPE POINT\nEND\n"
+            for j in range(7):
+                files[f"/simfs/w/chain/l{j}.map"] = f"INCLUDE \"chain/l{j + 1}.map\"\n" if j < 6 else layer
+            for tag, entry in (("deep", r.choice([0, 1])), ("mid", r.choice([2, 3, 4]))):
+                docs[f"d{len(docs)}"] = f"MAP\n  NAME \"{tag}\"\n  INCLUDE \"chain/l{entry}.map\"\nEND\n"
+        if r.random() < 0.3:
+            # a numeric twin: the same document with every bare integer written as a float (1 -> 1.0)
+            src = [d for d in sorted(docs) if d not in paths]
+            if src:
+                t = docs[r.choice(src)]
+                src_id = r.choice(src)
+                t = docs[src_id]
+                # only keyword lines holding a single number (colours and extents want integers / stay as they are)
+                twin = re.sub(r'(?m)^([ \t]*[A-Za-z]+[ \t]+)(-?\d+)([ \t\r]*(?:#.*)?)$', lambda m_: m_.group(1) + m_.group(2) + ".0" + m_.group(3), t)
+                if twin != t:
+                    docs[f"d{len(docs)}"] = twin
+                    files["__twin__"] = src_id + "," + f"d{len(docs) - 1}"
         return docs, files, paths
 
     # ------------------------------------------------------------ generate
@@ -202,6 +225,14 @@ class C12(core.Check):
                 ops.append({"op": "validate", "doc": d, "p": r.random() < 0.5, "version": r.choice(VERSIONS)})
             else:
                 ops.append({"op": "export", "schema": r.choice(SMALL_SCHEMAS), "version": r.choice(VERSIONS), "how": r.choice(["versioned", "expanded"])})
+        tw = files.pop("__twin__", None)
+        if tw:
+            # print the document and its numeric twin with the same reused printer, in both orders
+            a_, b_ = tw.split(",")
+            ppi = r.randrange(len(PP_CONFIGS))
+            pair = [{"op": "pprint", "doc": x_, "c": False, "p": False, "pp": ppi, "poke": None} for x_ in r.sample([a_, b_], 2)]
+            at = r.randint(0, len(ops))
+            ops[at:at] = pair
         fl = []
         if faults:
             f = s("faults")
@@ -215,6 +246,7 @@ class C12(core.Check):
     def gen_w2(self, seed, s, tier):
         k, r = s("knobs"), s("ops")
         docs, files, paths = self.gen_docs(s("workload"), k.choice([1, 2, 3]), allow_includes=False, samename=0.2)
+        files.pop("__twin__", None)
         ids = sorted(docs)
         nthreads = k.choice([2, 2, 3, 3, 4]) if tier == "quick" else k.choice([2, 3, 4, 4, 6, 8, 12, 16])
         dicts = [{"doc": d, "kw": {"include_comments": k.random() < 0.4, "include_position": k.random() < 0.3}} for d in ids]
